@@ -209,15 +209,35 @@ Definition page_spec (eff : N) (p : page_obs) : bool :=
   (N.of_nat (length its) <=? eff) &&            (* no page above the effective limit *)
   bool_eqb has_tok (negb (is_nil its)).         (* token iff non-empty *)
 
-Definition spec_scan (o : order) (coll : list N) (lim : option N) (obs : scan_obs) : bool :=
+(* [fits k]: can a token be issued for a page that ends on key k (is the
+   envelope of its selector at most 384 bytes)?  Computed with the codec.
+   The property is stated for collections whose tokens all fit; where an
+   item's token cannot be issued, the only admissible alternative to a
+   complete scan is an explicit error status for the request whose page would
+   end on that item, everything before it delivered correctly — never an
+   early end without a token. *)
+Definition spec_scan_with (fits : N -> bool)
+           (o : order) (coll : list N) (lim : option N) (obs : scan_obs) : bool :=
+  let eff := page_limit lim PAGE_MAX PAGE_DEFAULT in
   match obs with
   | SDone raw =>
       let pages := map expand_page raw in
-      let eff := page_limit lim PAGE_MAX PAGE_DEFAULT in
       list_eqb N.eqb (concat (map (fun p : page_obs => fst (fst p)) pages)) (view o coll)
       && forallb (page_spec eff) pages
-  | SFailed _ _ => false                        (* the scan must complete *)
-  | SRunaway _ => false                         (* and terminate *)
+  | SFailed status raw =>
+      let pages := map expand_page raw in
+      (400 <=? status) && (status <? 600) &&
+      forallb (page_spec eff) pages &&
+      forallb (fun p : page_obs => snd (fst p)) pages &&
+      match strip_prefix (concat (map (fun p : page_obs => fst (fst p)) pages)) (view o coll) with
+      | None => false                           (* what was delivered is not a prefix *)
+      | Some rest =>
+          match last_opt (takeN eff rest) with
+          | None => false                       (* nothing was left to deliver *)
+          | Some k => negb (fits k)             (* the failing page ends on an unissuable token *)
+          end
+      end
+  | SRunaway _ => false                         (* the scan must terminate *)
   end.
 
 (* ---------- the model's scan ---------- *)
@@ -250,9 +270,12 @@ Definition judge_scan_with (ser : sel -> option (list N))
            (de : list N -> option (pag_version * sel))
            (o : order) (coll : list N) (lim : option N) (obs : scan_obs) : N :=
   if negb (wf_case coll lim) then V_MALFORMED else
-  if negb (spec_scan o coll lim obs) then V_VIOLATION else
+  let fits := fun k => is_ok (serialize sel ser (o, k)) in
+  if negb (spec_scan_with fits o coll lim obs) then V_VIOLATION else
   match model_scan_with ser de o coll lim, obs with
   | Done ms, SDone ps => if pages_agree ms (map expand_page ps) then V_AGREE else V_DIVERGE
+  | Failed e ms, SFailed c ps =>
+      if (status_of e =? c) && pages_agree ms (map expand_page ps) then V_AGREE else V_DIVERGE
   | _, _ => V_DIVERGE
   end.
 
